@@ -146,6 +146,7 @@ def check(facts, rep, tier, cfg):
     check_option_setters(facts, rep, crate, "C04.R2", ['rwnd', 'default_rwnd_threshold'])
     rep.rule("C04.S7", "no new process-wide mutable state (static cell / lock / once-cell) in the files this property is anchored in")
     import whomay
+    whomay.check(facts, rep, "C04.S7", "C04")
     whomay.check_new_statics(facts, rep, "C04.S7", "C04")
     whomay.check_new_trait_methods(facts, rep, "C04.S7", "C04")
 
